@@ -53,11 +53,9 @@ ASSUMPTIONS = ["hash of the nominal label is injective (Section hypothesis hash_
                "least one value-holding input, without executors; raw operands are never NOT_DATA; values of user "
                "nodes do not change during a scenario",
                "Node.pull of an injected node = run the upstream closure (through parent.run() inside a Workflow, "
-               "including the Workflow's own input cache as keyed during run_data_tree's temporary renaming), then the "
-               "node itself; pull as such is property C11's subject, the composite cache C05's: a pull that the "
-               "Workflow's own cache turns into a no-op upstream (earlier successful pull, no child added since, same "
-               "value-holding nodes in the data tree) raises ReadinessError before the injected node can run -- the "
-               "model reproduces it, the oracle gives no verdict on it (no C18 clause speaks about a node that never ran)"]
+               "whose own input cache run_data_tree empties afterwards), then the "
+               "node itself; pull as such is property C11's subject, the composite cache C05's (run_data_tree leaves "
+               "the parent's cache empty, so every pull re-executes its upstream closure)"]
 
 
 # ---- harness node classes (module level: the library reads their source) --------------------
@@ -898,47 +896,6 @@ def _norms(case, level="exact"):
 LEVELS = [("frame", "C18-underscore-framing")]
 
 
-def _tree_keys(obs, i):
-    """value-holding nodes in the data tree of the node returned at step i, read off the observed wiring"""
-    keys, todo, seen = set(), [i], set()
-    while todo:
-        k = todo.pop()
-        if k in seen or len(obs[k]) != 6:
-            continue
-        seen.add(k)
-        for w in obs[k][3]:
-            if w[0] == "u":
-                keys.add(("u", w[1]))
-            elif w[0] == "v":
-                keys.add(("n", k))
-            elif w[0] == "r":
-                todo.append(w[1])
-            elif w[0] == "s":
-                for w2 in w[2:]:
-                    if w2[0] == "u":
-                        keys.add(("u", w2[1]))
-                    elif w2[0] == "v":
-                        keys.add(("s", json.dumps([obs[k][3][0], w])))
-                    elif w2[0] == "r":
-                        todo.append(w2[1])
-    return keys
-
-
-def _parent_cache_hit(case, obs, i):
-    """the pull at step i happens in a Workflow that already completed a pull, got no new child since,
-    and has the same value-holding nodes in its data tree: parent.run() is a cache hit, nothing runs"""
-    if not case["parent"]:
-        return False
-    last = None
-    for j in range(i):
-        if len(obs[j]) == 6 and obs[j][4] and obs[j][4][0] == "val":
-            last = j
-    if last is None or obs[i][2] != obs[last][2]:
-        return False
-    first = lambda k: obs[k][0][2]
-    return _tree_keys(obs, first(i)) == _tree_keys(obs, first(last))
-
-
 def _closure(case, i):
     seen, todo = set(), [i]
     while todo:
@@ -1029,10 +986,6 @@ def analyse(case, obs):
                 ok = exp[0] == "exc" and pl[1] in (exp[1], "ReadinessError")
                 if not ok:
                     out.append((i, "exception", f"exception: step {i} pull raised {pl[1]}; python gives {_show(exp)}"))
-            elif pinfo == ["ReadinessError", None] and _parent_cache_hit(case, obs, i):
-                # outside C18's clauses: the Workflow's own input cache (C05) made this pull a no-op
-                # upstream, so the node never got to run; there is no value to judge
-                pass
             else:
                 ok = exp[0] == "upexc" and (
                     (pinfo[0] == "FailedChildError" and (pinfo[1] in exp[1] or pinfo[1] == "ReadinessError"))
